@@ -195,6 +195,7 @@ func (c *Ctx) Expand(names []string) (*Expansion, error) {
 			args = append(args, fx.Spec)
 			cmd := exec.Command(bin, args...)
 			cmd.Dir = filepath.Dir(fx.Origin)
+			cmd.Env = goEnv() // goimports inside the generator shells out to `go`: keep it offline and on the local toolchain
 			var out bytes.Buffer
 			cmd.Stdout, cmd.Stderr = &out, &out
 			if err := cmd.Run(); err != nil {
